@@ -125,7 +125,16 @@ func GenValid(t *verifsim.Tape, d *spec.Design, a *spec.Attr, o GenOpts) any {
 		v0 = *v
 	}
 	if len(v0.Enum) > 0 {
-		return canonScalarKind(v0.Enum[t.Draw("enum", len(v0.Enum))], rt.Kind)
+		pick := canonScalarKind(v0.Enum[t.Draw("enum", len(v0.Enum))], rt.Kind)
+		if o.AvoidZero && isZero(pick) {
+			// (the zero value of a defaulted attribute reads as "unset": take another member when there is one)
+			for _, e := range v0.Enum {
+				if c := canonScalarKind(e, rt.Kind); !isZero(c) {
+					return c
+				}
+			}
+		}
+		return pick
 	}
 	switch rt.Kind {
 	case spec.Boolean:
